@@ -114,6 +114,12 @@ type Interp struct {
 	numCPU  int
 	allowCrash bool
 	stdout  []*Term
+	vfs     map[string]*HostObj
+	stdin   []Value
+	curFn   *ssa.Function
+	curInstr ssa.Instruction
+	stack   []string
+	copier  *deepCopier
 }
 
 type deferred struct {
@@ -209,7 +215,16 @@ func (ip *Interp) global(g *ssa.Global) *Value {
 		return s
 	}
 	src := ip.pr.initGlobal(g)
-	cp := &deepCopier{ip: ip, slots: map[*Value]*Value{}, backs: map[*Value][]Value{}, maps: map[*MapV]*MapV{}}
+	// one copier per path: pointers from one global into another (flag sets pointing at option
+	// variables, for instance) must keep pointing at this path's copy of the other global
+	if ip.copier == nil {
+		ip.copier = &deepCopier{ip: ip, slots: map[*Value]*Value{}, backs: map[*Value][]Value{}, maps: map[*MapV]*MapV{}}
+	}
+	cp := ip.copier
+	if ns, ok := cp.slots[src]; ok {
+		ip.globals[g] = ns
+		return ns
+	}
 	// register the root first so self references resolve
 	ns := new(Value)
 	cp.slots[src] = ns
@@ -235,11 +250,17 @@ func (d *deepCopier) copy(v Value) Value {
 	case ArrayV:
 		a := make(ArrayV, len(v))
 		for i := range v {
+			d.slots[&v[i]] = &a[i] // pointers to elements keep pointing into the copy
+		}
+		for i := range v {
 			a[i] = d.copy(v[i])
 		}
 		return a
 	case StructV:
 		a := make(StructV, len(v))
+		for i := range v {
+			d.slots[&v[i]] = &a[i] // pointers to fields keep pointing into the copy
+		}
 		for i := range v {
 			a[i] = d.copy(v[i])
 		}
@@ -437,6 +458,10 @@ func (ip *Interp) callFunction(fn *ssa.Function, args []Value) Value {
 	}
 	defer func() { *dp-- }()
 	ip.funcs[fi.descr] = true
+	nstack := len(ip.stack)
+	if debugStack {
+		ip.stack = append(ip.stack, name)
+	}
 	fr := &frame{ip: ip, fn: fn, fi: fi, env: make([]Value, fi.n)}
 	for i, p := range fn.Params {
 		fr.env[fi.idx[p]] = args[i]
@@ -447,8 +472,13 @@ func (ip *Interp) callFunction(fn *ssa.Function, args []Value) Value {
 	}
 	fr.block = fn.Blocks[0]
 	fr.run()
+	if debugStack {
+		ip.stack = ip.stack[:nstack]
+	}
 	return fr.result
 }
+
+var debugStack = os.Getenv("SYMGO_STACK") != ""
 
 func (ip *Interp) callClosure(c *Closure, args []Value) Value {
 	fn := c.Fn
@@ -460,6 +490,10 @@ func (ip *Interp) callClosure(c *Closure, args []Value) Value {
 	}
 	defer func() { *dp-- }()
 	ip.funcs[fi.descr] = true
+	nstack := len(ip.stack)
+	if debugStack {
+		ip.stack = append(ip.stack, fn.String())
+	}
 	fr := &frame{ip: ip, fn: fn, fi: fi, env: make([]Value, fi.n)}
 	for i, p := range fn.Params {
 		fr.env[fi.idx[p]] = args[i]
@@ -473,6 +507,9 @@ func (ip *Interp) callClosure(c *Closure, args []Value) Value {
 	}
 	fr.block = fn.Blocks[0]
 	fr.run()
+	if debugStack {
+		ip.stack = ip.stack[:nstack]
+	}
 	return fr.result
 }
 
@@ -495,6 +532,8 @@ func (ip *Interp) call(fn Value, args []Value, site ssa.Instruction) Value {
 		return ip.callClosure(f, args)
 	case *ssa.Builtin:
 		return ip.callBuiltin(f, args, site)
+	case *HostFn:
+		return f.F(ip, args)
 	case *Opaque:
 		unsupported("call of opaque function value (%s)", f.Why)
 	}
@@ -531,6 +570,7 @@ func (fr *frame) run() {
 				fr.set(b.Instrs[i].(*ssa.Phi), vals[i])
 			}
 		}
+		ip.curFn = fr.fn
 		p.steps += int64(len(b.Instrs))
 		if p.steps > p.maxSteps {
 			panic(pathEnd{"budget", "step budget exceeded"})
@@ -544,6 +584,7 @@ func (fr *frame) run() {
 				}
 				fmt.Fprintln(os.Stderr)
 			}
+			ip.curInstr = in
 			if fr.exec(in) {
 				next = true
 				break
